@@ -1556,6 +1556,34 @@ func (w *Walker) slice(fr *frame, x *ssa.Slice) *Term {
 	if lo != nil {
 		loN, loConst = lo.Int64()
 	}
+	// a slice of the array a slice was converted to ((*[6]byte)(b[0:6])[:]) is a view of that slice: the same memory
+	if base.Op == "arrview" && len(base.Args) == 1 {
+		if at, ok := x.X.Type().Underlying().(*types.Pointer); ok {
+			if arr, ok := at.Elem().Underlying().(*types.Array); ok {
+				inner := base.Args[0]
+				if hi == nil {
+					hi = mkInt(arr.Len(), types.Typ[types.Int])
+				}
+				if lo == nil {
+					lo = mkInt(0, types.Typ[types.Int])
+				}
+				// ... and a view of a view is a view of the original (constant bounds)
+				if inner.Op == "slice" && len(inner.Args) >= 3 {
+					a0 := int64(0)
+					okA := true
+					if inner.Args[1] != nil {
+						a0, okA = inner.Args[1].Int64()
+					}
+					l, okL := lo.Int64()
+					h, okH := hi.Int64()
+					if okA && okL && okH {
+						return &Term{Op: "slice", Args: []*Term{inner.Args[0], mkInt(a0+l, types.Typ[types.Int]), mkInt(a0+h, types.Typ[types.Int]), nil}, Typ: x.Type()}
+					}
+				}
+				return &Term{Op: "slice", Args: []*Term{inner, lo, hi, mx}, Typ: x.Type()}
+			}
+		}
+	}
 	switch base.Op {
 	case "ptr": // pointer to array cell
 		if at, ok := base.Cell.Typ.Underlying().(*types.Array); ok && len(base.Path) == 0 && loConst {
@@ -1687,6 +1715,9 @@ func (w *Walker) calleeOf(fr *frame, c *ssa.CallCommon) (string, *Term) {
 	}
 	if b, ok := c.Value.(*ssa.Builtin); ok {
 		return "builtin:" + b.Name(), nil
+	}
+	if f := frozenFuncVar(c.Value); f != nil {
+		return calleeName(f), &Term{Op: "closure", Fn: f, Typ: c.Value.Type()}
 	}
 	v := w.val(fr, c.Value)
 	if v.Op == "closure" {
